@@ -212,7 +212,7 @@ func serialGen(c *Ctx) {
 	rng := c.Rand(2301)
 	count := 40
 	if c.Thorough() {
-		count = 600
+		count = 2400
 	}
 	for i := 0; i < count; i++ {
 		w.Put(serialBus(fmt.Sprintf("serial-bus-%d", i), rng.Int63n(1<<40), i%4 != 3))
